@@ -16,6 +16,7 @@ mod feedad;
 mod intresad;
 mod objad;
 mod vecad;
+mod xmodad;
 mod viewsad;
 mod wakerad;
 
@@ -29,6 +30,7 @@ fn main() {
     match args[1].as_str() {
         "vec" => vecad::main(&args[2..]),
         "arc" => arcad::main(&args[2..]),
+        "xmod" => xmodad::main(&args[2..]),
         "cview" => cviewad::main(&args[2..]),
         "obj" => objad::main(&args[2..]),
         "views" => viewsad::main(&args[2..]),
